@@ -42,15 +42,15 @@ theorem pruneTxn_entry (keep : Tid → Oid → Bool) (t : Txn) (o : Oid) :
         · have : keep t.tid o = false := by simpa using hk
           simp [Option.filter, this]
     · simp only [Option.bind_some, Txn.recOf]
-      rw [find?_filter_oid (keep t.tid)]
+      rw [dedupLast_filter_oid (keep t.tid), find?_filter_oid (keep t.tid)]
       by_cases hk : keep t.tid o = true
       · simp only [hk, if_true]
-        cases hr : t.recs.find? (fun r => r.oid == o) with
+        cases hr : (dedupLast t.recs).find? (fun r => r.oid == o) with
         | none => simp [Txn.recOf, hr]
         | some r => simp [Txn.recOf, hr, Option.filter, hk]
       · have hk' : keep t.tid o = false := by simpa using hk
         simp only [hk', Bool.false_eq_true, if_false]
-        cases hr : t.recs.find? (fun r => r.oid == o) with
+        cases hr : (dedupLast t.recs).find? (fun r => r.oid == o) with
         | none => simp [Txn.recOf, hr]
         | some r => simp [Txn.recOf, hr, Option.filter, hk']
 
